@@ -1608,6 +1608,31 @@ impl<K: Hash + Eq, V, RH: BuildHasher, FH: BuildHasher, GH: BuildHasher> fmt::De
     }
 }
 
+#[cfg(feature = "verif-hooks")]
+impl<K: Hash + Eq, V, RH: BuildHasher, FH: BuildHasher, GH: BuildHasher>
+    TwoQueueCache<K, V, RH, FH, GH>
+{
+    /// Verification hook (feature `verif-hooks`): read-only views of (recent, frequent, ghost).
+    #[doc(hidden)]
+    #[allow(clippy::type_complexity)]
+    pub fn verif_parts(
+        &self,
+    ) -> (
+        &RawLRU<K, V, DefaultEvictCallback, RH>,
+        &RawLRU<K, V, DefaultEvictCallback, FH>,
+        &RawLRU<K, V, DefaultEvictCallback, GH>,
+    ) {
+        (&self.recent, &self.frequent, &self.ghost)
+    }
+
+    /// Verification hook (feature `verif-hooks`): the recent-queue quota.
+    #[doc(hidden)]
+    pub fn verif_recent_quota(&self) -> usize {
+        self.recent_size
+    }
+}
+
+
 #[cfg(test)]
 mod test {
     use crate::lru::two_queue::TwoQueueCache;
